@@ -106,7 +106,11 @@ def shard(ctx):
         ctx.evaluations -= 1
         check(ctx, case, 3 if ctx.quick else 4, 1500 if ctx.quick else 6000)
 
-    ctx.run_hypothesis(comp.cases(), oracle, ctx.scale(1300, 16000))
+    import os
+
+    only = os.environ.get("VERIF_ONLY")  # experiments: restrict to some compilers
+    strat = comp.cases(names=only.split(","), with_pipelines=False) if only else comp.cases()
+    ctx.run_hypothesis(strat, oracle, ctx.scale(3200, 24000))
 
 
 def replay(ctx, case):
